@@ -8,6 +8,8 @@ VARIABLES ncast
 \* ranges with negative members cannot be written in a TLC configuration file
 LoSet == -12..12
 HiSet == -12..12
+LoSetT == -24..24
+HiSetT == -24..24
 mcvars == <<givars, rcvars, ncast>>
 
 Tuples(S) == IF Dim = 2 THEN {<<x, y>> : x \in S, y \in S} ELSE {<<x, y, z>> : x \in S, y \in S, z \in S}
